@@ -27,6 +27,7 @@ func init() {
 		Jobs: []Job{
 			{Name: "diff", Run: "^TestDiff$", Checks: [2]int{1500, 10000}, Shards: [2]int{8, 16}},
 			{Name: "pairsdiff", Run: "^TestTablePairsDiff$", Shards: [2]int{8, 16}},
+			{Name: "agreement", Run: "^TestTableAgreement$", Shards: [2]int{2, 4}},
 		}})
 }
 
@@ -146,7 +147,7 @@ func init() {
 			{Name: "keys", Run: "^TestTableKeys$", Shards: [2]int{1, 1}},
 			{Name: "members", Run: "^TestTableMembers$", Shards: [2]int{2, 4}},
 			{Name: "index", Run: "^TestTableIndex$", Shards: [2]int{2, 4}},
-			{Name: "mutation", Run: "^TestTableReceiverMutation$", Shards: [2]int{1, 1}},
+			{Name: "mutation", Run: "^(TestTableReceiverMutation|TestTableAnyObjectKeyNames)$", Shards: [2]int{1, 1}},
 		}})
 }
 
